@@ -713,21 +713,21 @@ def family_names(depth=2, full=False):
                 # (1) every {none,a,b} placement
                 if len(nodes) <= 4 or full or lname == 'rot':
                     alph = (None,) + NAMES
-                    if len(nodes) > 4 and not full:
-                        alph = (None, 'a')                 # quick: binary alphabet on the 6-node shape
+                    if not full and (len(nodes) > 4 or (len(nodes) > 2 and (kname not in ('pair', 'or') or lname != 'rot'))):
+                        alph = (None, 'a')                 # quick: binary alphabet on the larger / mixed shapes
                     for combo in itertools.product(alph, repeat=len(nodes)):
                         m = dict(zip(nodes, combo))
                         out.append(build_tree(shape, kind, leaf, lambda pa: (m.get(pa), None)))
                 # (2) single generated-looking names (others unnamed / all others 'a')
                 if lname in ('rot', 'int'):
                     for node in nodes:
-                        for g in GENERATED_LIKE:
+                        for g in (GENERATED_LIKE if full or kname in ('pair', 'or') else GENERATED_LIKE[:8]):
                             out.append(build_tree(shape, kind, leaf, lambda pa: (g if pa == node else None, None)))
                             if full:
                                 out.append(build_tree(shape, kind, leaf, lambda pa: (g if pa == node else ('a' if pa else None), None)))
                 # (3) type annotations as names
-                if lname == 'rot':
-                    for combo in itertools.product((None, 'a', 'b'), repeat=len(nodes)) if len(nodes) <= 4 else ():
+                if lname == 'rot' and (full or kname in ('pair', 'or')):
+                    for combo in itertools.product((None, 'a', 'b') if full else (None, 'a'), repeat=len(nodes)) if len(nodes) <= 4 else ():
                         m = dict(zip(nodes, combo))
                         out.append(build_tree(shape, kind, leaf, lambda pa: (None, m.get(pa))))
                     for node in nodes:                      # one type name among field names
@@ -866,7 +866,7 @@ def param_types(tier='quick', seed=0):
             for n in specials:
                 variants.append({**base, n: 'default'})
                 variants.append({**base, n: 'root'})
-            if len(nodes) <= 7:
+            if len(nodes) <= 5 or (len(nodes) <= 7 and (tier == 'thorough' or len(ann) <= 3)):
                 for n1, n2 in itertools.permutations(ann, 2):
                     variants.append({**base, n1: 'default', n2: 'root'})
             for m in variants:
